@@ -52,7 +52,8 @@ def decide(ctx, spec_module, cases, trace_file, failed, validated, level_note, r
                 unre.append(i)
         if unre:
             # not reproducible: never a verdict
-            if len(unre) > max(3, len(mine) // 10):
+            # (a verdict needs reproduced behaviour: cases that did reproduce are judged, the others are set aside)
+            if not confirmed and len(unre) > max(3, len(mine) // 10):
                 raise Infra("%d of %d rejected cases did not reproduce (e.g. case %d: %s)" % (len(unre), len(mine), unre[0], mine[unre[0]]))
             log("warning: %d rejected cases did not reproduce and are ignored: %s" % (len(unre), unre[:5]))
     # ---- classification against the committed known findings
